@@ -243,6 +243,93 @@ def element_assignment(chk, db, rule):
             'operator= at %s:%s, which does not store that alternative by its type' % (target['file'], target['pat']['l'])), function=ir.fn_label(f))
 
 
+def become_index_guard(chk, db, rule):
+    """BI: Variant::Become hands only non-negative indices to the union walk.  The walk counts the index down once per level
+    (`target_index - 1`), which overflows - undefined behaviour - for indices near INT32_MIN; "an out-of-range index leaves the
+    Variant empty" must hold for every int32.  Decided on the IR of Variant::Become: every call of the union's Become sits under a
+    guard (enclosing `if`, the left operand of `&&` / `||`, the condition of `?:`) that is false for a negative index."""
+    chk.rule(rule, 'Variant::Become passes only non-negative indices into the union walk (no signed overflow in target_index - 1)', minimum=1)
+    seen = set()
+
+    def ev(e, pid):
+        """value of a guard expression under target_index = -1 (None if it depends on anything else)"""
+        e = ir.strip_all_casts(e)
+        k = e.get('k')
+        if k == 'ref':
+            return -1 if e.get('id') == pid else None
+        c = ir.const_of(e)
+        if c is not None:
+            return c
+        if k == 'un' and e.get('op') == '!':
+            v = ev(e['e'], pid)
+            return None if v is None else int(not v)
+        if k == 'un' and e.get('op') == '-':
+            v = ev(e['e'], pid)
+            return None if v is None else -v
+        if k == 'bin':
+            l, r = ev(e['l'], pid), ev(e['r'], pid)
+            op = e.get('op')
+            if op == '&&':
+                return 0 if (l == 0 or r == 0) else (None if (l is None or r is None) else 1)
+            if op == '||':
+                return 1 if (l not in (None, 0) or r not in (None, 0)) else (None if (l is None or r is None) else 0)
+            if l is None or r is None:
+                return None
+            import operator
+            ops = {'<': operator.lt, '<=': operator.le, '>': operator.gt, '>=': operator.ge, '==': operator.eq, '!=': operator.ne}
+            if op in ops:
+                return int(ops[op](l, r))
+        return None
+
+    def walk(node, guards, out, pid):
+        if isinstance(node, list):
+            for x in node:
+                walk(x, guards, out, pid)
+            return
+        if not isinstance(node, dict):
+            return
+        k = node.get('k')
+        if k == 'call' and ir.callee_name(node) == 'Become' and (node.get('callee') or {}).get('rect') == 'nop::detail::Union':
+            out.append((node, list(guards)))
+        if k == 'bin' and node.get('op') in ('&&', '||'):
+            walk(node['l'], guards, out, pid)
+            walk(node['r'], guards + [(node['l'], node['op'] == '&&')], out, pid)
+            return
+        if k == 'cond':
+            walk(node.get('c'), guards, out, pid)
+            walk(node.get('a'), guards + [(node.get('c'), True)], out, pid)
+            walk(node.get('b'), guards + [(node.get('c'), False)], out, pid)
+            return
+        if k == 'if':
+            walk(node.get('cond'), guards, out, pid)
+            walk(node.get('then'), guards + [(node.get('cond'), True)], out, pid)
+            walk(node.get('else'), guards + [(node.get('cond'), False)], out, pid)
+            return
+        for kk, v in node.items():
+            if kk not in ('callee', 'loc'):
+                walk(v, guards, out, pid)
+    for f in db.fns:
+        if f.get('rect') != 'nop::Variant' or f['n'] != 'Become' or 'body' not in f or not f['params']:
+            continue
+        key = (f['file'], f['pat']['l'])
+        if key in seen:
+            continue
+        seen.add(key)
+        pid = f['params'][0].get('id')
+        calls = []
+        walk(f['body'], [], calls, pid)
+        if not calls:
+            chk.unanalysable(rule, facts.site(f), 'Variant::Become does not call the union walk')
+            continue
+        bad = []
+        for c, gs in calls:
+            protected = any(g is not None and ev(g, pid) is not None and bool(ev(g, pid)) != sense for g, sense in gs)
+            if not protected:
+                bad.append(c.get('loc', {}).get('l'))
+        chk.decide(not bad, rule, facts.site(f), 'Variant::Become: %s' % ('the union walk at line %s is reachable with a negative index' % bad[0] if bad else
+                   'every call of the union walk is guarded by a condition that is false for a negative index'), function=ir.fn_label(f))
+
+
 def tagging(chk, db, rule):
     chk.rule(rule, 'Union::Become(i, args...) constructs alternative i through Construct(TypeTag<alternative>, args...); tagged Union operations stay tagged when they recurse', minimum=4)
     seen = set()
@@ -301,6 +388,7 @@ def rules(chk, db):
     # the untagged one searches for any alternative constructible from the arguments
     tagging(chk, db, 'BT')
     element_assignment(chk, db, 'AE')
+    become_index_guard(chk, db, 'BI')
     names = [f['n'] for f in r['fields']]
     flag = [f['n'] for f in r['fields'] if f.get('scalar')]
     store = [f['n'] for f in r['fields'] if f.get('recunion')]
